@@ -125,6 +125,19 @@ def elementwise_comparisons_and_reductions(np, d):
 
 
 @case
+def block_argmax_and_masks(np, d):
+    A, v, w = np.array(d["m23"]), np.array(d["v3"]), np.array(d["v4"])
+    R = np.array([[0.6, -0.8], [0.8, 0.6]])
+    B = np.block([[R, np.zeros((2, 1))], [np.zeros((1, 2)), np.eye(1)]])
+    C = np.block([[np.eye(2), A], [np.zeros((3, 2)), np.eye(3)]])
+    D = np.block([v, w])
+    neg = w < 0.0
+    dec = neg | (w > 0.0)
+    return (B, C, D, int(np.argmax(dec)), bool(dec.any() and neg[np.argmax(dec)]), int(np.argmax(w)), int(np.argmin(w)), int(np.argmax(np.abs(v))),
+            [int(i) for i in np.flatnonzero(w > 0.0)], int(np.count_nonzero(w > 0.0)))
+
+
+@case
 def dot_variants(np, d):
     A, B, v, w = np.array(d["m33"]), np.array(d["m34"]), np.array(d["v3"]), np.array(d["v4"])
     return np.dot(A, B), np.dot(v, A), np.dot(A, v), np.dot(v, v), np.dot(np.dot(np.transpose(v), A), v), np.dot(np.transpose(B), A), A @ B
